@@ -488,3 +488,33 @@ def check_method(ck, rule, gr, fn_path, node, label, allow_missing=(), **kw):  #
     ck.ob(rule, label, verdict, site(gr.w.fns[fn_path]),
           "%s visits all %d children of %s in order" % (label, n, node) if verdict else "; ".join(problems + und))
     return n
+
+
+def token_conversion_obligations(ck, R, w, crate):
+    """every generated `XToken` ADT that has a `comments` field is converted to a VerylToken by an impl that reads that field and splits
+    it (token_with_comments!); the tokens converted without comments are exactly those whose ADT has no such field."""
+    from core import site
+    G = crate + "::generated::veryl_grammar_trait::"
+    toks = sorted(a for a in w.adts if a.startswith(G) and a.endswith("Token") and w.adts[a]["kind"] == "struct")
+    impls = {}
+    for p in w.fns:
+        m = re.search(r"TryFrom<&(%s\w+Token)>>::try_from$" % re.escape(G), p)
+        if m and "VerylToken" in p:
+            impls[m.group(1)] = p
+    n = 0
+    for a in toks:
+        has = any(f["name"] == "comments" for f in w.adts[a]["variants"][0]["fields"])
+        if not has:
+            continue
+        n += 1
+        p = impls.get(a)
+        if p is None:
+            ck.ob(R, "token-keeps-comments:" + a[len(G):], None, "", "no TryFrom<&%s> for VerylToken found" % a[len(G):])
+            continue
+        sm = w.fns[p]
+        ok = any((c["c"] or "").endswith("split_comment_token") for c in sm["calls"]) and [a, "comments"] in [list(x) for x in (sm.get("fr") or [])]
+        ck.ob(R, "token-keeps-comments:" + a[len(G):], ok, site(sm),
+              "the comments the scanner attached to %s are split and kept" % a[len(G):] if ok else
+              "%s carries a `comments` field (the grammar lets comments follow it) but its conversion to VerylToken ignores it: comments after this "
+              "token vanish from every tool that rewrites the file" % a[len(G):])
+    return n
